@@ -78,6 +78,11 @@ def call_value(E, fv, args, kw, st, out, node):
         return call_ext(E, fv.name, args, kw, st, out, node)
     if isinstance(fv, VBound):
         return call_bound(E, fv, args, kw, st, out, node)
+    if isinstance(fv, VObj):
+        E.notes.append("opaque call of an attribute of an opaque object")
+        E.may_raise_any(st, out, node, "opaque call")
+        f = z3.Function("py_call_%d" % len(args), *([PyObj] * (len(args) + 2)))
+        return [(st, VObj(f(fv.t, *[E.to_obj(a) for a in args])))]
     if isinstance(fv, VRef):
         return E.call_method(fv, "__call__", args, kw, st, out, node)
     if isinstance(fv, VType):
@@ -200,7 +205,7 @@ def call_builtin(E, name, args, kw, st, out, node):
             E.may_raise_any(st, out, node, "iter")
         return [(st, v)]
     if name == "chr":
-        return [(st, VStr(z3.String(fresh_name("chr"))))]
+        return [(st, VStr(z3.Function("py_chr", I, S)(args[0].t)))]
     if name == "open":
         return call_lib(E, "open", args, kw, st, out, node)
     if name in ("set", "tuple", "list", "dict"):
@@ -422,6 +427,11 @@ def str_method(E, r, m, args, kw, st, out, node):
     if m == "replace":
         f = z3.Function("py_replace", S, S, S, S)
         return [(st, VStr(f(t, args[0].t, args[1].t)))]
+    if m == "join" and args and isinstance(args[0], VObj):
+        # "".join(t) of an opaque tuple of strings
+        tv = z3.simplify(t)
+        if z3.is_string_value(tv) and tv.as_string() == "":
+            return [(st, VStr(z3.Function("py_str_payload", PyObj, S)(args[0].t)))]
     if m == "splitlines":
         v, asm = fresh(LIST(STR), "splitlines")
         for a in asm:
